@@ -17,7 +17,7 @@ DEPS = {'C01': ['classes', 'simplify', 'shapes', 'lookup', 'values', 'insert'],
 GROUP_THEOREMS = {
     'classes': ['get_valid_classes_is_model', 'get_valid_classes_refuses', 'get_multiplicity_is_model'],
     'simplify': ['is_constant_is_model', 'is_repeating_is_model', 'get_const_period_is_model', 'simplify_is_model'],
-    'lookup': ['get_meta_index_is_model', 'meta_valid_is_model'],
+    'lookup': ['get_meta_index_is_model', 'meta_valid_is_model', 'get_meta_is_model'],
     'valid': ['check_valid_is_model'],
     'shapes': ['subset_shape_is_model', 'merge_shape_is_model'],
     'wrapsplit': ['split_specs_is_model', 'split_trim_is_model'],
@@ -28,7 +28,8 @@ GROUP_THEOREMS = {
                'global_slice_subset_is_model', 'insert_slice_interleave_is_model', 'insert_sample_interleave_is_model',
                'slice_step_is_model', 'get_changed_class_no_slice_dim_is_model'],
     'insert': ['change_class_is_model', 'reclassify_is_model', 'insert_slice_is_model', 'insert_non_slice_is_model', 'insert_sample_is_model'],
-    'subset': ['copy_slice_is_model', 'copy_sample_is_model'],
+    'subset': ['copy_slice_is_model', 'copy_sample_is_model', 'get_subset_slice_axis_is_model', 'get_subset_spatial_axis_copies',
+               'get_subset_sample_axis_is_model'],
     'header': ['header_slice_times_is_model'],
     'stackadd': ['chk_congruent_is_model', 'add_dcm_is_model'],
     'data': ['file_idx_is_model', 'file_idx_volume_is_model', 'get_data_trim_is_model'],
